@@ -23,26 +23,43 @@ CONSTANTS Levels,    \* 1 or 2: with 2 only the level-2 expressions are roots (l
           Offset,
           Wide,      \* TRUE: the wider operator set (partial, star_partial, rep, rep_opt, until, if_must, opt_must, if_then_else,
                      \*       enable, disable, raise, try_catch_raise_nested) in addition to the core one
-          AllCfgs    \* TRUE: apply mode x rewind mode x 5 action families x 2 controls; FALSE: rewind mode x {none, bool apply}
+          AllCfgs    \* TRUE: apply mode x rewind mode x 8 action families x 2 controls; FALSE: rewind mode x {none, bool apply, switches}
 
 VARIABLES w, cfg,                        \* the run: input, configuration incl. root (fixed in Init)
-          fr, cur, ret, exc, q, done,    \* PegMachine
+          fr, cur, ret, exc, q, done, aux,    \* PegMachine
           stk, cs, lastx, verd, cnt,     \* PegContract
           n, ended                       \* event counter, end event delivered
 
-vars == <<w, cfg, fr, cur, ret, exc, q, done, stk, cs, lastx, verd, cnt, n, ended>>
+vars == <<w, cfg, fr, cur, ret, exc, q, done, aux, stk, cs, lastx, verd, cnt, n, ended>>
 
+\* "swK": a named rule seq< R > that carries switch K of the harness's action family 5 (change_state< S1 >, change_states< S1 >,
+\* change_action< fam1 >, change_action_and_state, change_action_and_states, change_control, enable_action, disable_action,
+\* change_state< S2 >, change_action_and_state< fam1, S2 >); "state2": state< S2, R > with the default-constructible-only S2
+SwSeq == <<"sw1", "sw2", "sw3", "sw4", "sw5", "sw6", "sw7", "sw8", "sw9", "sw10">>
+SwOps == {SwSeq[i] : i \in 1..Len(SwSeq)}
+SwNo(o) == IF o \in SwOps THEN CHOOSE i \in 1..Len(SwSeq) : SwSeq[i] = o ELSE 0
+\* "limV": a named rule seq< R > that carries limit V = kind * 1000 + N of the harness's action family 4 (1 limit_depth< N >,
+\* 2 limit_bytes< N >, 3 check_bytes< N >)
+LimSeq == <<"lim1000", "lim1001", "lim1002", "lim2000", "lim2001", "lim2002", "lim3000", "lim3001", "lim3002">>
+LimVal == <<1000, 1001, 1002, 2000, 2001, 2002, 3000, 3001, 3002>>
+LimOps == {LimSeq[i] : i \in 1..Len(LimSeq)}
+LimNo(o) == IF o \in LimOps THEN LimVal[CHOOSE i \in 1..Len(LimSeq) : LimSeq[i] = o] ELSE 0
+RealOp(o) == IF o \in SwOps \cup LimOps THEN "seq" ELSE IF o = "state2" THEN "state" ELSE o
 Unary  == {"star", "plus", "opt", "at", "not_at"} \cup (IF ExcOps THEN {"must", "try_catch_return_false"} ELSE {})
           \cup (IF Wide THEN {"partial", "star_partial", "rep", "rep_opt", "enable", "disable"} ELSE {})
           \cup (IF Wide /\ ExcOps THEN {"try_catch_raise_nested"} ELSE {})
+          \cup (IF Wide THEN {"state", "state2"} \cup SwOps ELSE {})
+          \cup (IF Wide /\ ExcOps THEN LimOps ELSE {})
 Binary == {"seq", "sor"} \cup (IF Wide THEN {"until"} ELSE {})      \* if_must / opt_must: see Apps
 Ternary == IF Wide THEN {"if_then_else"} ELSE {}
-AK == 16 + 2 * 256 + 3 * 4096 + 4 * 65536 + 5 * 1048576 + 6 * 16777216 + 7 * 268435456      \* family f -> action kind f
+\* family f -> action kind f for f = 1, 2, 3, 6, 7; family 4 is the limits family (no actions); family 5 (rules without a
+\* switch): kind 4 (bool apply0) on even nodes, kind 5 (apply throwing a foreign exception) on odd ones
+AKF(id) == 16 + 2 * 256 + 3 * 4096 + (4 + (id % 2)) * 1048576 + 6 * 16777216 + 7 * 268435456
 
-NodeRec(id, op, kids, p, iop, ikids, en) ==
-   [id |-> id, op |-> op, kids |-> kids, p |-> p, iop |-> iop, ikids |-> ikids, ip |-> p, en |-> en, vid |-> id, ak |-> IF en = 1 THEN AK ELSE 0,     \* nobody attaches actions to internal rules
+NodeRec(id, op, kids, p, iop, ikids, en, sw, lim) ==
+   [id |-> id, op |-> op, kids |-> kids, p |-> p, iop |-> iop, ikids |-> ikids, ip |-> p, en |-> en, vid |-> id, ak |-> IF en = 0 THEN 0 ELSE IF sw > 0 THEN AKF(id) - (4 + (id % 2)) * 1048576 ELSE AKF(id),   \* a rule with a switch has the change_* class as its family-5 action;     \* nobody attaches actions to internal rules
    
-    sel |-> 0, lim |-> 0, sw |-> 0, named |-> 0, s |-> "", dn |-> "n", name |-> "n", hasmsg |-> 0, emsg |-> "", thas |-> 0, tmsg |-> "",
+    sel |-> 0, lim |-> lim, sw |-> sw, named |-> 0, s |-> "", dn |-> "n", name |-> "n", hasmsg |-> 0, emsg |-> "", thas |-> 0, tmsg |-> "",
     prop |-> "C01"]
 AtomSpecs == <<<<"any", <<>>>>, <<"one", <<97>>>>, <<"string", <<97, 98>>>>, <<"eof", <<>>>>, <<"success", <<>>>>, <<"failure", <<>>>>>>
              \o (IF Wide /\ ExcOps THEN <<<<"raise", <<2>>>>>> ELSE <<>>)          \* raise< one< 'a' > >
@@ -76,14 +93,14 @@ K2 == IF Levels >= 2 /\ Offset < T2 THEN ((T2 - 1 - Offset) \div Stride) + 1 ELS
 L2 == [k \in 1..K2 |-> Decode(Offset + (k - 1) * Stride)]
 \* parameters: try_catch*: the caught class (1 parse_error_base) [and the rule whose raise_nested is called]; rep / rep_opt: the count
 PP(op, kids) == IF op = "try_catch_return_false" THEN <<1>> ELSE IF op = "try_catch_raise_nested" THEN <<1, kids[1]>>
-                ELSE IF op \in {"rep", "rep_opt"} THEN <<2>> ELSE <<>>
+                ELSE IF op \in {"rep", "rep_opt"} THEN <<2>> ELSE IF op = "state" THEN <<0>> ELSE IF op = "state2" THEN <<1>> ELSE <<>>
 \* implementation view: if_must< C, R > = subs_t< C, must< R > >
 IK(op, kids) == IF op \in {"if_must", "opt_must"} THEN <<kids[1], MustOf(kids[2])>> ELSE kids
-App(id, a) == NodeRec(id, a[1], a[2], PP(a[1], a[2]), a[1], IK(a[1], a[2]), 1)
+App(id, a) == NodeRec(id, RealOp(a[1]), a[2], PP(a[1], a[2]), RealOp(a[1]), IK(a[1], a[2]), 1, SwNo(a[1]), LimNo(a[1]))
 GNodes ==
    [i \in 1..(B1 + Len(L1) + Len(L2)) |->
-      IF i <= NA THEN NodeRec(i, AtomSpecs[i][1], <<>>, AtomSpecs[i][2], AtomSpecs[i][1], <<>>, 1)
-      ELSE IF i <= B1 THEN NodeRec(i, "must", <<i - NA>>, <<>>, "must", <<i - NA>>, 0)
+      IF i <= NA THEN NodeRec(i, AtomSpecs[i][1], <<>>, AtomSpecs[i][2], AtomSpecs[i][1], <<>>, 1, 0, 0)
+      ELSE IF i <= B1 THEN NodeRec(i, "must", <<i - NA>>, <<>>, "must", <<i - NA>>, 0, 0, 0)
       ELSE IF i <= B1 + Len(L1) THEN App(i, L1[i - B1])
       ELSE App(i, L2[i - B1 - Len(L1)])]
 
@@ -97,27 +114,29 @@ DenCtx == [A |-> cfg.A, lim |-> Len(w), fam |-> cfg.af, vis |-> IF cfg.cf \in {3
 Fuel == 10
 
 \* The documented expansions of if_then_else and until mention the condition twice, once under not_at (actions
-\* disabled): with an action that vetoes the condition the expansion and the rule legitimately differ (the formalism
-\* knows no actions), so such runs are left to the recorded-run checks with non-vetoing families.
+\* disabled).  With an action inside the condition that does more than observe -- vetoes, throws, or is a limit that
+\* raises -- the expansion and the rule legitimately differ (the rule runs the condition once, with actions; the
+\* formalism knows no actions), so such roots are run with the observing families 0, 1, 2 only; the other families
+\* meet these operators in the recorded-run checks, where the corpus keeps such actions out of conditions.
 RECURSIVE HasDup(_)
 HasDup(g) == GNodes[g].op \in {"if_then_else", "until"} \/ \E i \in 1..Len(GNodes[g].kids) : HasDup(GNodes[g].kids[i])
 
 Init ==
    /\ w \in Inputs
    /\ \E g \in (IF Levels >= 2 THEN (B1 + Len(L1) + 1)..Len(GNodes) ELSE {r \in 1..Len(GNodes) : r % Stride = Offset % Stride}),
-         A \in (IF AllCfgs THEN {0, 1} ELSE {1}), MM \in {0, 1}, af \in (IF AllCfgs THEN 0..7 ELSE {0, 3}), cf \in (IF AllCfgs THEN {2, 4} ELSE {4}) :
-         cfg = [g |-> g, A |-> A, M |-> MM, af |-> af, cf |-> cf, eol |-> 3, ib |-> 0, il |-> 1, ic |-> 1]
-   /\ ~(cfg.A = 1 /\ cfg.af \in {3, 4} /\ HasDup(cfg.g))
+         A \in (IF AllCfgs THEN {0, 1} ELSE {1}), MM \in {0, 1}, af \in (IF AllCfgs THEN 0..7 ELSE {0, 3, 4, 5}), cf \in (IF AllCfgs THEN {2, 4} ELSE {4}) :
+         cfg = [g |-> g, A |-> A, M |-> MM, af |-> af, cf |-> cf, eol |-> 3, ib |-> 0, il |-> 1, ic |-> 1, cls |-> IF af = 4 THEN 1 ELSE 0]      \* limit_depth needs the input with the depth counter
+   /\ ~(cfg.A = 1 /\ cfg.af \notin {0, 1, 2} /\ HasDup(cfg.g))
    \* grammars that loop without progress on this input are C11's business
    /\ D!Den(cfg.g, 0, DenCtx, Fuel).k # "L"
    /\ M!MInit
    /\ stk = <<>> /\ lastx = C!NoLast /\ verd = <<>> /\ cnt = C!Cnt0
    /\ cs = [id |-> 1, g |-> cfg.g, w |-> w, A |-> cfg.A, M |-> cfg.M, af |-> cfg.af, cf |-> cfg.cf, trk |-> 0, eol |-> 3,
-            ib |-> 0, il |-> 1, ic |-> 1, cls |-> 0, xt |-> 0, bmax |-> 0, bchunk |-> 0, sched |-> 0]
+            ib |-> 0, il |-> 1, ic |-> 1, cls |-> cfg.cls, xt |-> 0, bmax |-> 0, bchunk |-> 0, sched |-> 0]
    /\ n = 1 /\ ended = FALSE
 
 EndEvent ==
-   [k |-> "end", v |-> done, b |-> cur, l |-> 1, c |-> 1 + cur, o |-> cur, e |-> Len(w), d |-> -1,
+   [k |-> "end", v |-> done, b |-> cur, l |-> 1, c |-> 1 + cur, o |-> cur, e |-> Len(w), d |-> IF cfg.cls = 1 THEN aux.dep ELSE -1,
     x |-> IF done = 2 THEN exc.cls ELSE 0, nested |-> IF done = 2 THEN exc.n ELSE 0,
     pb |-> IF done = 2 THEN exc.at ELSE -1, pl |-> IF done = 2 THEN 1 ELSE -1, pc |-> IF done = 2 THEN 1 + exc.at ELSE -1,
     src |-> "src", msg |-> IF done = 2 THEN C!MsgOf(exc.who, exc.m) ELSE "",
@@ -132,7 +151,7 @@ Next ==
       /\ UNCHANGED <<w, cfg, stk, cs, lastx, verd, cnt, n, ended>>
    \/ /\ q = <<>> /\ done # -1 /\ ~ended                    \* parse() returned or threw
       /\ C!Step(EndEvent, n) /\ ended' = TRUE /\ n' = n + 1
-      /\ UNCHANGED <<w, cfg, fr, cur, ret, exc, q, done>>
+      /\ UNCHANGED <<w, cfg, fr, cur, ret, exc, q, done, aux>>
 
 Spec == Init /\ [][Next]_vars
 
